@@ -8,7 +8,7 @@ Definition hmap_eqb (a b : hmap) : bool :=
 
 (* the value of X-Forwarded-For (ClientIP heuristics over X-Forwarded-For / X-Real-Ip /
    RemoteAddr) is outside C08: when the harness cannot name it independently only its
-   presence (one value) is compared *)
+   presence (one value) is compared, and the oracle is given the observed value as the address *)
 Definition hide_xff (m : hmap) : hmap :=
   map (fun kv => if str_eqb (fst kv) XFF then (fst kv, map (fun _ => "") (snd kv)) else kv) m.
 
@@ -46,7 +46,8 @@ Definition check_case (c : case) : bool * bool :=
       let cfg := {| c_adapter := a; c_ep_headers := eph; c_ep_query := epq;
                     c_be_headers := beh; c_be_query := beq; c_static := static |} in
       let req := {| r_lines := lines; r_query := qs; r_host := host;
-                    r_ip := match ip with Some i => i | None => "" end; r_ua := ua |} in
+                    r_ip := match ip with Some i => i
+                            | None => match getl XFF oh with [v] => v | _ => "" end end; r_ua := ua |} in
       let o := {| o_headers := oh; o_query := oq |} in
       let m := outgoing cfg req in
       let hid := match ip with Some _ => (fun x => x) | None => hide_xff end in
@@ -65,7 +66,8 @@ Definition check_case (c : case) : bool * bool :=
       let cfg := {| c_adapter := a; c_ep_headers := eph; c_ep_query := epq;
                     c_be_headers := beh; c_be_query := beq; c_static := static |} in
       let req := {| r_lines := lines; r_query := qs; r_host := host;
-                    r_ip := match ip with Some i => i | None => "" end; r_ua := ua |} in
+                    r_ip := match ip with Some i => i
+                            | None => match getl XFF oh with [v] => v | _ => "" end end; r_ua := ua |} in
       let o := {| o_headers := oh; o_query := oq |} in
       let m := outgoing_gql g cfg req in
       let hid := match ip with Some _ => (fun x => x) | None => hide_xff end in
